@@ -224,7 +224,10 @@ def match_known(kf, v):
 def conclude(ctx, coq, disagreements, corr_sig=None):
     """Decision rule (DESIGN 2.4) once the oracles have run: a broken obligation or a
     correspondence disagreement for which no failing input was found is still a violation."""
-    have_oracle = any(v["kind"] == "impl-oracle" for v in ctx.violations)
+    kf = load_known()
+    # a failing input that is a listed open finding does not explain a broken proof/translator/
+    # correspondence: only unlisted oracle violations count as "a failing input was found"
+    have_oracle = any(v["kind"] == "impl-oracle" and match_known(kf, v) is None for v in ctx.violations)
     if coq is not None and not coq["ok"]:
         pr = coq["props"]
         what = []
